@@ -87,10 +87,17 @@ def emit_operand(a: Any) -> bytes:
 
 
 def emit_tokens(ops: Sequence[Op]) -> List[bytes]:
+    """One entry per lexical token group; arrays are emitted bracket by element so that a content stream may be
+    split inside a composite operand (ISO 32000-1 7.8.2 allows a split at any token boundary)."""
     toks: List[bytes] = []
     for op in ops:
         for a in op.args:
-            toks.append(emit_operand(a))
+            if isinstance(a, list):
+                toks.append(b"[")
+                toks.extend(emit_operand(x) for x in a)
+                toks.append(b"]")
+            else:
+                toks.append(emit_operand(a))
         toks.append(op.name.encode())
     return toks
 
